@@ -81,7 +81,7 @@ def search(ctx):
     # the answer of match_command is the decision of the last rule that matches on its own (deterministic)
     import itertools
 
-    pats = [("git push", False), ("git push *", False), ("git *", False), ("git push", True), ("gi*", False), ("rm", False)]
+    pats = [("git push", False), ("git push *", False), ("git *", False), ("git push", True), ("gi*", False), ("rm", False), ("*push*", False), ("*t pu*", False)]
     rules = [C.Rule(dec, pat, exact=ex) for pat, ex in pats for dec in ("allow", "ask", "deny")]
     cmds5 = [["git", "push"], ["git", "push", "origin"], ["git", "status"], ["rm", "x"], ["git"]]
     alone = {(i, j): C.match_command(C.SimpleCommand(words=ws), C.Config(rules=[rule]), cwd) is not None for i, rule in enumerate(rules) for j, ws in enumerate(cmds5)}
